@@ -81,6 +81,8 @@ def run(ctx, rep):
     rep.analysed(rc)
     inv = list(rc.calls('hash_invalid_set'))
     past_hash_cleared_rule(P, rep, 'R-C07-3d')
+    from .C11 import need_write_rule
+    need_write_rule(P, rep, 'R-C07-8')
     from ..guards import guards_of
     def hash_writers(f):
         res = []
